@@ -31,7 +31,9 @@ def run(repo, pids=None):
                         break
             out[pid] = {"violated": viol, "undecided": len(ctx.undecided),
                         "error": err,
-                        "why": [str(u)[:300] for u in ctx.undecided][:4]}
+                        "why": [str(u)[:300] for u in ctx.undecided][:4],
+                        "msgs": {o.key: f"{o.site}: {o.msg}"[:400]
+                                 for o in ctx.obligations if not o.ok}}
         except AnalysisError as e:
             out[pid] = {"violated": [], "undecided": 0, "error": str(e)[:200]}
         except Exception:
